@@ -1766,6 +1766,7 @@ func (t *Torrent) Request(index uint32, prio int8, request bool, want bool) (boo
 		}
 	}
 
+	verifYield("Request.checked")
 	var ch chan (<-chan struct{})
 	if want {
 		ch = make(chan (<-chan struct{}))
